@@ -22,8 +22,8 @@ Oracles (vf.c20_html, written over html.parser events; no nunavut code involved)
      the page generated with a plain word W there, and every text node equals the base text node with W -> D (modulo
      white space): D arrives as character data and can introduce neither an element (marker <xq7>, <script>) nor
      change any other part of the page;
-  3. every relative href, resolved against the page's own path, names a generated file that contains the referenced id;
-     an id that is the target of a link occurs once in its page.
+  3. every relative href, resolved against the page's own path, names a generated file that contains the referenced id
+     (a linked id that occurs more than once in its page is only counted: the statement does not demand unique ids).
 """
 from __future__ import annotations
 
@@ -577,6 +577,7 @@ class Result:
         self.stats: typing.Dict[str, int] = {}
         self.outcomes: typing.Set[str] = set()
         self.sinks: typing.Set[str] = set()
+        self.notes: typing.Dict[str, str] = {}  # observations outside the statement (statistics with an example)
 
     def count(self, k: str, n: int = 1) -> None:
         self.stats[k] = self.stats.get(k, 0) + n
@@ -653,12 +654,14 @@ def check_tree_standalone(tree: Tree, res: Result, due_to_text: typing.Optional[
                         )
                         continue
                     if n > 1:
+                        # Not demanded by the statement (a duplicated id still is an anchor the generator produces):
+                        # counted, with one replayable example per kind of collision, never reported.
                         ds = sorted(d for i, d in tpage.ids if i == frag)
-                        res.add(
-                            {"kind": "ambiguous_anchor", "between": ds[:3]},
+                        res.count("links_to_an_id_that_occurs_more_than_once")
+                        res.notes.setdefault(
+                            "duplicate_id:" + "+".join(ds[:3]),
                             f"{rel}: href {href!r} -> id {frag!r} occurs {n} times in {target!r} ({', '.join(ds)})",
                         )
-                        continue
                 res.count("links_resolved")
                 res.count("links_resolved_" + href_form(href))
             dup = sum(1 for v in id_count.values() if len(v) > 1)
@@ -927,6 +930,8 @@ def _work(job: dict) -> dict:
             agg.count(k, v)
         agg.outcomes |= res.outcomes
         agg.sinks |= res.sinks
+        for k, v in res.notes.items():
+            agg.notes.setdefault(k, {"example": v, "case": _replayable(case)})  # type: ignore[arg-type]
         if len(samples) < 1:
             samples.append({"case": case["label"], "doc": doc, "violations": len(res.violations), "stats": dict(res.stats)})
     return {
@@ -937,6 +942,7 @@ def _work(job: dict) -> dict:
         "outcomes": agg.outcomes,
         "sinks": agg.sinks,
         "samples": samples,
+        "notes": agg.notes,
     }
 
 
@@ -983,10 +989,13 @@ def run(ctx: Ctx) -> int:
     nontrivial = sum(r["nontrivial"] for r in results)
     outcomes: typing.Set[str] = set()
     sinks: typing.Set[str] = set()
+    notes: typing.Dict[str, typing.Any] = {}
     for r in results:
         ctx.bag.merge(r["bag"])
         outcomes |= r["outcomes"]
         sinks |= r["sinks"]
+        for k, v in r["notes"].items():
+            notes.setdefault(k, v)
         for k, v in r["stats"].items():
             ctx.count(k, v)
     step = max(1, len(results) // 6)
@@ -1000,6 +1009,7 @@ def run(ctx: Ctx) -> int:
         layer_CDE_cases=len(plain),
         distinct_doc_strings=len(docs),
         sinks=sorted(sinks),
+        not_demanded_observations={k: notes[k] for k in sorted(notes)},
     )
     # ---- vacuity guards
     if len(sinks) < 6:
@@ -1039,7 +1049,9 @@ def run(ctx: Ctx) -> int:
             "a URL that names a directory means that directory's index.html; with separate output directories a "
             "cross-root link is judged against the union of the output roots",
             "server-absolute hrefs (/reg/Namespace.html on type pages) and external URLs are counted, not judged",
-            "ids are judged only as link targets (existence; uniqueness of an id that some link targets)",
+            "ids are judged only as link targets (existence); a linked id that occurs twice in its page is counted in "
+            "stats (links_to_an_id_that_occurs_more_than_once, not_demanded_observations), not reported: the statement "
+            "does not demand unique ids",
             "white space inside text nodes is compared after normalisation",
         ],
         min_outcomes=("distinct_outcomes", 3),
@@ -1050,5 +1062,7 @@ def replay(ctx: Ctx, case: dict) -> int:
     res = eval_case(case, ctx.scratch, None)
     for sig, what in res.violations:
         print(f"violation {json.dumps(sig, sort_keys=True)}: {what}")
+    for k, v in sorted(res.notes.items()):
+        print(f"note (not demanded, not a violation) {k}: {v}")
     print(f"stats: {json.dumps(res.stats, sort_keys=True)}")
     return 1 if res.violations else 0
